@@ -501,7 +501,7 @@ namespace raptor
                     solve_times[4] += mat_t;
                 }
 
-                while (r_norm > solve_tol && iter < max_iterations)
+                while (!(r_norm <= solve_tol) && iter < max_iterations)
                 {
                     cycle(sol, rhs, 0);
 
